@@ -24,6 +24,7 @@ type denomSwap struct {
 	l        *Ledger
 	newDenom string
 	newAmt   math.Int
+	amountFirst bool
 	saw      []sdk.Coin
 	ran      int
 }
@@ -36,8 +37,14 @@ func (s *denomSwap) HandlePacket(_ context.Context, p *types.ActionPacket) error
 	s.saw = append(s.saw, sdk.Coin{Denom: ta.DestinationDenom(), Amount: ta.DestinationAmount()})
 	s.l.Set(core.ModuleAddress, ta.DestinationDenom(), math.ZeroInt())
 	s.l.Set(core.ModuleAddress, s.newDenom, s.newAmt)
-	ta.SetDestinationDenom(s.newDenom)
-	ta.SetDestinationAmount(s.newAmt)
+	// (a controller may set the two attributes in either order)
+	if s.amountFirst {
+		ta.SetDestinationAmount(s.newAmt)
+		ta.SetDestinationDenom(s.newDenom)
+	} else {
+		ta.SetDestinationDenom(s.newDenom)
+		ta.SetDestinationAmount(s.newAmt)
+	}
 	return nil
 }
 
